@@ -3,6 +3,7 @@ implementation: 2-3 real yowsup accounts in the world simulator (harness/worldsi
 import json
 from .. import modelrun
 from .. import worldsim as ws
+from .. import c17kill
 
 PHONES = ["1000001", "1000002", "1000003"]
 
@@ -12,7 +13,10 @@ ASSUME = [
     "duplicate = message number already decrypted); SQLite's transaction semantics (a commit on the shared "
     "connection makes every earlier write durable; closing a connection rolls an open transaction back) - exercised "
     "for real: restart = the old stack is dropped, its store connection CLOSED WITHOUT COMMIT as at process exit, a "
-    "new stack opens the same profile directory; X25519/AES/HMAC strength",
+    "new stack opens the same profile directory; kill = the process dies at a statement / commit boundary of the "
+    "store (harness/c17kill.py: SQLite's statement trace on the library's own connection; database file + rollback "
+    "journal copied at the boundary, everything the still running interpreter emits afterwards dropped, the copy - "
+    "hot journal rolled back by opening it - becomes the new process's store); X25519/AES/HMAC strength",
     "tie model<->code: every history is run on 2-3 real stacks (control/send/receive axolotl layers, protocol "
     "layers, real python-axolotl and SQLite) against the server double; each account's real inputs are abstracted "
     "and replayed through the extracted model; outputs at bottom and top, the COMMITTED identities table and the "
@@ -21,8 +25,14 @@ ASSUME = [
     "harness/worldsim.py: server double, recorder (maps ciphertext bytes to the symbolic term of the encryption "
     "that produced them) and the declared third-party shim for python-axolotl 0.2.2's AES padding defect",
     "theorems quantify over ALL input sequences of one account (arbitrary contacts, arbitrary server), which "
-    "contains every history of (publish, reinstall, message either way, identity-change notification, restart) for "
-    "any number of accounts",
+    "contains every history of (publish, reinstall, message either way, identity-change notification, restart, kill "
+    "at a write boundary) for any number of accounts",
+    "kills: the model's durable states of an input are the state before it and one per commit (ghost log); the real "
+    "store is killed only inside inputs about contacts that are already pinned (python-axolotl stores the session "
+    "and saves the identity in two transactions: killed between them at FIRST contact a session exists for an "
+    "identity that is not remembered - Coq witness C17_no_encrypt_to_stranger_with_kill_refuted; no pin exists yet "
+    "that could be lost, cross-store atomicity is C13's); outputs a killed process emitted before the boundary are "
+    "compared as none (true for every input but a key answer that releases several parked messages)",
 ]
 
 
@@ -47,9 +57,22 @@ def run_history(ctx, case):
     rng = random.Random(case.get("sched_seed", 0))
     mid = 0
     bodies = {}
+    killer = None           # armed by a "kill" op for the duration of the NEXT op
     try:
         for k, op in enumerate(case["ops"]):
-            if op[0] == "send":
+            if killer is not None and killer.age >= 1:
+                killer.disarm()
+                killer = None
+            if killer is not None:
+                killer.age += 1
+            if op[0] == "kill":             # account op[1] dies at the op[2]-th store write boundary of the next op
+                if killer is not None:
+                    killer.disarm()
+                killer = c17kill.Killer(w, w.accounts[op[1]], op[2], ctx.scratch)
+                killer.age = 0
+                if not killer.arm():
+                    killer = None
+            elif op[0] == "send":
                 mid += 1
                 body = "body-%d-%s" % (mid, op[3] if len(op) > 3 else "x")
                 bodies[mid] = (op[1], op[2], body)
@@ -62,6 +85,10 @@ def run_history(ctx, case):
                 w.accounts[op[1]].restart()
             elif op[0] == "notify":         # server -> account op[1]: "op[2] has a new identity" (encrypt notification)
                 w.notify_identity(op[1], op[2])
+            elif op[0] == "corrupt":        # the server damages the oldest pending message delivery (one MAC bit), if any
+                mp = w.messages_pending()
+                if mp:
+                    w.corrupt(mp[0])
             elif op[0] == "dup":            # server duplicates the oldest pending message delivery, if any
                 mp = w.messages_pending()
                 if mp:
@@ -79,13 +106,16 @@ def run_history(ctx, case):
                 else:
                     used = w.drain()
                 sched_out.append(used)
-            elif (op[0] == "send" and len(op) > 4 and op[4] == "hold") or (op[0] == "notify" and "hold" in op[3:]):
+            elif (op[0] == "send" and len(op) > 4 and op[4] == "hold") or (op[0] == "notify" and "hold" in op[3:]) \
+                    or op[0] == "kill":
                 sched_out.append([])        # burst: leave the stanzas queued until the next op
             else:
                 sched_out.append(w.drain(lambda m: rng.randrange(m) if case.get("reorder") else 0))
         if w.pending:
             sched_out.append(w.drain())
     finally:
+        if killer is not None:
+            killer.disarm()
         w.close()
     return w, w.observer, bodies, sched_out
 
@@ -135,6 +165,12 @@ def abstract_account(rec, idx, bodies):
             if x is None:
                 cur = None
                 continue
+            if ev.get("killed") is not None:
+                if x[0] in (0, 1, 2):
+                    x = [7, int(ev["killed"]), x]      # killed while handling x, after that many commits
+                    tag = "kill"
+                else:
+                    problems.append("killed inside an input of kind %r" % (x[0],))
             ins.append(x)
             cur = []
             outs.append(cur)
@@ -220,7 +256,8 @@ def oracle(case, rec, bodies):
             if ev["tag"] == "reinstall":
                 pinned = {}
                 stored = set()
-            if ev["tag"] in ("reinstall", "restart"):
+            killed = ev.get("killed") is not None      # the process died inside this input; a new one took over
+            if ev["tag"] in ("reinstall", "restart") or killed:
                 asked_by = {}       # the new process knows nothing of the old one's requests: their answers are ignored
             for o in outs:
                 if o["tag"] == "getkeys":
@@ -236,14 +273,17 @@ def oracle(case, rec, bodies):
                         bad.append(("pin_changed", "account %d: key of %d was %d, now %r after %s" %
                                     (idx, c, k, after.get(c), ev["tag"])))
                 # 5. the pin survives the end of the process: what the new process finds holds every remembered key
-                if ev["tag"] == "restart":
+                if ev["tag"] == "restart" or killed:
                     for c, k in sorted(pinned.items()):
                         if after.get(c) is None:
-                            bad.append(("not_remembered", "account %d: after the restart no key is stored for %d "
+                            bad.append(("not_remembered", "account %d: after the %s no key is stored for %d "
                                         "(identity %d had been remembered%s)" %
-                                        (idx, c, k, "; the session built for it is still there"
-                                         if sess_after.get(c) else "")))
-                    if after != pinned:
+                                        (idx, "kill at store write boundary %s while handling %s of %r" %
+                                         (ev.get("kill_boundary"), ev["tag"], ev.get("peer", ev.get("users") and
+                                                                                   [u["jid"] for u in ev["users"]]))
+                                         if killed else "restart", c, k,
+                                         "; the session built for it is still there" if sess_after.get(c) else "")))
+                    if after != pinned and not killed:
                         bad.append(("pin_lost_on_restart", "account %d: %r -> %r" % (idx, pinned, after)))
             # 0'. a key that WAS in the committed table does not disappear from it (whatever is saved for other contacts)
             if after is not None and ev["tag"] != "reinstall":
@@ -255,6 +295,8 @@ def oracle(case, rec, bodies):
                                      " of %r" % ev.get("peer") if ev.get("peer") is not None else "")))
                 stored = set(c for c in stored if c in after)
             # 0. the first key seen is remembered: whoever we encrypt for / are shown a message from has a stored key
+            if killed:
+                msg_out, delivered, outs = [], [], []
             if after is not None:
                 for o in msg_out:
                     if not o["plain"] and after.get(o["peer"]) is None:
@@ -275,7 +317,7 @@ def oracle(case, rec, bodies):
                         bad.append(("encrypt_to_stranger", "account %d -> %d: session built for identity %r, "
                                     "pinned %r" % (idx, o["peer"], t.get("ident"), pk)))
             # 3. a different identity is refused (auto-trust off) / 4. replaces the old one (auto-trust on)
-            if ev["tag"] == "keys":
+            if ev["tag"] == "keys" and not killed:
                 for u in ev["users"]:
                     old = pinned.get(u["jid"])
                     if old is not None and old != u["ident"]:
@@ -296,7 +338,7 @@ def oracle(case, rec, bodies):
                                             (idx, u["jid"], u["ident"], old)))
                         elif after is not None and after.get(u["jid"]) != u["ident"]:
                             bad.append(("autotrust_did_not_replace", "account %d: bundle of %d" % (idx, u["jid"])))
-            if ev["tag"] == "message" and ev["encs"] and ev["encs"][0].get("kind") == "pkmsg":
+            if ev["tag"] == "message" and not killed and ev["encs"] and ev["encs"][0].get("kind") == "pkmsg":
                 t = ev["encs"][0]
                 old = pinned.get(ev["peer"])
                 if old is not None and t.get("pident") and old != t["pident"]:
@@ -341,8 +383,37 @@ def expect_resumed(case, rec, bodies):
 # ---------------------------------------------------------------------------------------------------
 # cases
 # ---------------------------------------------------------------------------------------------------
-def scripted_cases():
+def kill_cases():
+    """Directed, always run: a contact is pinned (identity I1); an operation that calls into the identity store for it
+    again is killed at each of its store write boundaries in turn (a boundary number beyond the last = no kill);
+    the new process takes over; the contact reinstalls (I2) and comes back by bundle and by first message."""
     cs = []
+    for auto in (False, True):
+        for j in range(7):
+            # the contact's bundle is fetched and processed AGAIN (identity-change notification, same identity):
+            # storeSession DELETE/INSERT/COMMIT, saveIdentity DELETE/INSERT/COMMIT = boundaries 0..5
+            cs.append({"name": "kill-refetch-%s-%d" % (auto, j), "n": 2, "autotrust": [auto, False],
+                       "ops": [["send", 0, 1], ["send", 1, 0], ["kill", 0, j], ["notify", 0, 1], ["reinstall", 1],
+                               ["send", 0, 1], ["send", 1, 0]],
+                       "expect": {"1": True, "2": True, "3": auto, "4": auto}})
+            # a second prekey message of the pinned contact: saveIdentity D/I/C, storeSession D/I/C = 0..5
+            cs.append({"name": "kill-pkmsg-%s-%d" % (auto, j), "n": 2, "autotrust": [auto, False],
+                       "ops": [["send", 1, 0], ["kill", 0, j], ["send", 1, 0], ["reinstall", 1], ["send", 1, 0],
+                               ["send", 0, 1]],
+                       "expect": {"1": True, "3": auto, "4": auto}})
+        for j in range(10):
+            # our message is damaged on its way (the server double flips a MAC bit), the contact answers with a retry
+            # receipt, the bundle is fetched again to serve it (storeSession, saveIdentity = boundaries 0..5) and the
+            # message re-encrypted under the new session (storeSession = 6..8)
+            cs.append({"name": "kill-retry-refetch-%s-%d" % (auto, j), "n": 2, "autotrust": [auto, False],
+                       "ops": [["send", 0, 1], ["send", 1, 0], ["send", 0, 1, "x", "hold"], ["kill", 0, j],
+                               ["corrupt"], ["reinstall", 1], ["send", 0, 1], ["send", 1, 0]],
+                       "expect": {"1": True, "2": True, "4": auto, "5": auto}})
+    return cs
+
+
+def scripted_cases():
+    cs = kill_cases()
     for auto in (False, True):
         # --- the pin must be durable whichever path saved it (seeded defect C17-2: saveIdentity without commit) ---
         # (a) the identity is first learnt from the bundle fetched after an identity-change notification (nothing is
@@ -505,6 +576,14 @@ def random_case(rng, tier):
                         [["send", changed, a, "x"], ["send", a, changed, "x"]]])
         at = 0 if rng.random() < .5 else rng.randrange(len(ops) + 1)
         ops[at:at] = motif
+    # kills: the account of the NEXT op's receiving (or sending) side dies at a random store write boundary
+    k = 0
+    while k < len(ops):
+        if ops[k][0] in ("send", "notify") and rng.random() < .12:
+            who = rng.choice([ops[k][1], ops[k][2]]) if ops[k][0] == "send" else ops[k][1]
+            ops.insert(k, ["kill", who, rng.randrange(6) if rng.random() < .7 else rng.randrange(12)])
+            k += 1
+        k += 1
     ops = legalise(ops, n)
     return {"name": "random", "n": n, "autotrust": auto, "ops": ops, "reorder": rng.random() < .5,
             "sched_seed": rng.randrange(1 << 30), "pad_seed": rng.randrange(1 << 30)}
@@ -593,7 +672,7 @@ def run(ctx):
         if key not in distinct:
             distinct.add(key)
             kinds = set(o[0] for o in case["ops"])
-            if ("reinstall" in kinds or "clone" in kinds) and ("send" in kinds or "notify" in kinds):
+            if ("reinstall" in kinds or "clone" in kinds or "kill" in kinds) and ("send" in kinds or "notify" in kinds):
                 nontrivial += 1
         if found:
             kinds = set(k for k, _, _ in found)
@@ -632,13 +711,18 @@ def run(ctx):
     ctx.coverage["exhaustive"] = False
     return ctx.finish(
         rule="case = history over 2-3 accounts (send a->b, reinstall a, restart a = end of the process with the store "
-             "connection closed uncommitted, clone a of b = a reinstalls carrying b's identity key pair, identity-change "
-             "notification about b to a, server duplicate; per-account "
+             "connection closed uncommitted, kill a j = a dies at the j-th store write boundary (statement or commit) it "
+             "reaches during the next operation while handling an input about a pinned contact, and restarts over the "
+             "durable state of that boundary, clone a of b = a reinstalls carrying b's identity key pair, identity-change "
+             "notification about b to a, server duplicate / damaged ciphertext; per-account "
              "auto-trust flag; FIFO or seeded random server schedule, bursts held in the queue); %d scripted "
              "histories (both auto-trust settings) + seeded random ones, 3 in 10 of them with an inserted motif "
              "(identity learnt by notification / parked message / failing first message, restart, the contact "
              "reinstalls, contact again), 2 in 10 of the 3-account ones with a shared-key motif (two contacts "
-             "hold the same identity key, one of them then changes it); non-trivial = distinct history with at "
+             "hold the same identity key, one of them then changes it), about 1 in 8 sends/notifications preceded by a "
+             "kill op; the directed kill histories (pinned contact: bundle processed again after a notification / for a "
+             "retry receipt, second prekey message; killed at every boundary in turn; then the contact reinstalls; both "
+             "auto-trust settings) are always run; non-trivial = distinct history with at "
              "least one reinstall or clone and one send or notification" % len(scripted_cases()),
         assumptions_text=ASSUME)
 
